@@ -100,9 +100,28 @@ fn gen<VI: Val, VL: Val>(input: &[bool], inner: &[VI], leaf: &VL, ctx: &[u8], no
     }
 }
 
+/// An IdpfInput equal to `prefix` whose underlying storage starts `offset` bits into a word (built
+/// through the public `From<BitBox>`): equal inputs must behave identically whatever their alignment.
+fn unaligned_input(prefix: &[bool], offset: usize) -> IdpfInput {
+    if offset == 0 {
+        return IdpfInput::from_bools(prefix);
+    }
+    let mut bv: BitVec<usize, Lsb0> = BitVec::new();
+    for i in 0..offset {
+        bv.push(i % 2 == 0);
+    }
+    bv.extend(prefix.iter().copied());
+    let bb: BitBox<usize, Lsb0> = BitBox::from_bitslice(&bv[offset..]);
+    IdpfInput::from(bb)
+}
+
 fn eval<VI: Val, VL: Val>(agg: usize, ps: &IdpfPublicShare<VI, VL>, key: &Seed<16>, prefix: &[bool], ctx: &[u8], nonce: &[u8], cache: &mut dyn IdpfCache) -> Result<IdpfOutputShare<VI, VL>, String> {
+    eval_at(agg, ps, key, &IdpfInput::from_bools(prefix), ctx, nonce, cache)
+}
+
+fn eval_at<VI: Val, VL: Val>(agg: usize, ps: &IdpfPublicShare<VI, VL>, key: &Seed<16>, prefix: &IdpfInput, ctx: &[u8], nonce: &[u8], cache: &mut dyn IdpfCache) -> Result<IdpfOutputShare<VI, VL>, String> {
     let idpf = Idpf::<VI, VL>::new((), ());
-    match catch(|| idpf.eval(agg, ps, key, &IdpfInput::from_bools(prefix), ctx, nonce, cache)) {
+    match catch(|| idpf.eval(agg, ps, key, prefix, ctx, nonce, cache)) {
         Ok(Ok(x)) => Ok(x),
         Ok(Err(e)) => Err(format!("eval error: {e}")),
         Err(m) => Err(format!("eval panic: {m}")),
@@ -376,7 +395,9 @@ fn cache_histories(run: &Run, bits: usize, depth: usize, n_inputs: usize, tape: 
                 ($kind:expr, $cache:expr) => {{
                     let mut c = Checked { inner: $cache, truth: &truth, bad: RefCell::new(None), hits: RefCell::new(0) };
                     for (step, pi) in hist.iter().enumerate() {
-                        let r = eval::<VI, VL>(agg, &ps, &keys[agg], &prefixes[*pi], &ctx, &nonce, &mut c);
+                        // equal prefixes with different storage alignment (offsets 0,3,5,62,...) share the cache
+                        let offset = [0usize, 3, 0, 5, 62, 1][(step + h as usize) % 6];
+                        let r = eval_at::<VI, VL>(agg, &ps, &keys[agg], &unaligned_input(&prefixes[*pi], offset), &ctx, &nonce, &mut c);
                         transitions.fetch_add(1, Ordering::Relaxed);
                         let ok = matches!(&r, Ok(o) if *o == reference[*pi]);
                         if !ok {
